@@ -105,31 +105,38 @@ Theorem C16_dra_sub_never_negative : forall d o, 0 <= d_count (dra_sub d (Some o
 Proof. exact dra_sub_never_negative. Qed.
 Print Assumptions C16_dra_sub_never_negative.
 
-(* --- Resource <-> v1.ResourceList (ConvertRes2ResList / NewResource) --- *)
-(* Resource -> ResourceList -> Resource is the identity (and MaxTaskNum is the pods scalar) on the
-   domain rt_domain: scalar names of the classes NewResource keeps, no empty non-nil scalar map,
-   amounts within the float64-exact range *)
+(* --- Resource <-> v1.ResourceList (ConvertRes2ResList / NewResource), magnitudes up to 2^63 --- *)
+(* Resource -> ResourceList -> Resource is the identity (and MaxTaskNum is the pods scalar) on rt_domain:
+   scalar names of the classes NewResource keeps, no empty non-nil scalar map, every amount a float64-exact
+   integer with |amount| < 2^63 in the unit the code converts (amount_ok; C16_amount_ok_float says this in
+   the words of the float mini-model: FloatMini.round x = Fin x) *)
 Theorem C16_new_resource_convert : forall r, rt_domain r = true ->
   new_resource (convert r) = (r, sget r pods_name).
 Proof. exact new_resource_convert. Qed.
 Print Assumptions C16_new_resource_convert.
 
-(* the same without the amount bound, and what exactly is lost outside the name guard *)
+Theorem C16_amount_ok_float : forall x, amount_ok x = true -> FloatMini.round x = Fin x /\ Z.abs x < 2 ^ 63.
+Proof. exact amount_ok_float. Qed.
+Print Assumptions C16_amount_ok_float.
+
+(* the idealised conversions (no float64 / int64 effect; they coincide with the real ones on res_exact /
+   rl_exact): no amount bound needed, and what exactly is lost outside the name guard *)
 Theorem C16_new_resource_convert_gen : forall r, names_kept r -> sc r <> Some ∅ ->
-  new_resource (convert r) = (r, sget r pods_name).
-Proof. exact new_resource_convert_gen. Qed.
+  new_resource_z (convert_z r) = (r, sget r pods_name).
+Proof. exact new_resource_convert_gen_z. Qed.
 Print Assumptions C16_new_resource_convert_gen.
 
 Theorem C16_new_resource_convert_pointwise : forall r,
   scm r !! cpu_name = None -> scm r !! mem_name = None ->
-  let r' := fst (new_resource (convert r)) in
+  let r' := fst (new_resource_z (convert_z r)) in
   cpu r' = cpu r /\ mem r' = mem r /\
   forall k, scm r' !! k = if kept_scalar k then scm r !! k else None.
-Proof. exact new_resource_convert_pointwise. Qed.
+Proof. exact new_resource_convert_pointwise_z. Qed.
 Print Assumptions C16_new_resource_convert_pointwise.
 
-(* ResourceList -> Resource -> ResourceList, per name class, for every list *)
-Theorem C16_convert_new_resource : forall rl k,
+(* ResourceList -> Resource -> ResourceList, per name class, for every list whose amounts are float64-exact
+   and below 2^63 in the unit NewResource reads them (rl_exact) *)
+Theorem C16_convert_new_resource : forall rl k, rl_exact rl = true ->
   let rl' := convert (fst (new_resource rl)) in
   match name_class k with
   | CCpu => rl' !! k = Some (default 0 (rl !! k))
@@ -141,7 +148,21 @@ Theorem C16_convert_new_resource : forall rl k,
 Proof. exact convert_new_resource. Qed.
 Print Assumptions C16_convert_new_resource.
 
-Theorem C16_convert_new_resource_exact : forall rl k m,
+(* ... and for EVERY list: each amount goes through float64 rounding (round to nearest even) and int64(f) *)
+Theorem C16_convert_new_resource_any : forall rl k,
+  let c x := i64 (f64 x) in
+  let rl' := convert (fst (new_resource rl)) in
+  match name_class k with
+  | CCpu => rl' !! k = Some (c (default 0 (rl !! k)))
+  | CMem => rl' !! k = Some (1000 * c (qvalue (default 0 (rl !! k))))
+  | CPods => rl' !! k = (fun m => 1000 * c (qvalue m)) <$> rl !! k
+  | CEph | CScalar => rl' !! k = c <$> rl !! k
+  | CCountQuota | CIgnoredDev | CDropped => rl' !! k = None
+  end.
+Proof. exact convert_new_resource_any. Qed.
+Print Assumptions C16_convert_new_resource_any.
+
+Theorem C16_convert_new_resource_exact : forall rl k m, rl_exact rl = true ->
   rl !! k = Some m -> kept_scalar k = true \/ k = cpu_name \/ k = mem_name ->
   (k = mem_name \/ k = pods_name -> (1000 | m)) ->
   convert (fst (new_resource rl)) !! k = Some m.
@@ -434,6 +455,10 @@ Theorem C16_law_sub_assert_accepts_model : forall eps r rr,
 Proof. exact law_sub_assert_model. Qed.
 Print Assumptions C16_law_sub_assert_accepts_model.
 
+Theorem C16_law_min_inf_accepts_model : forall r rr, law_min_inf r rr (min_dim r rr DInf) = true.
+Proof. exact law_min_inf_model. Qed.
+Print Assumptions C16_law_min_inf_accepts_model.
+
 Theorem C16_law_f2q2f_accepts_model : forall g c x mant e, 0 < g ->
   float_is mant e (Z.quot x g) = true ->
   law_f2q2f g c x (float_to_quantity g c x) mant e = true.
@@ -477,7 +502,7 @@ Example C16_roundtrip_nonvacuous :
   let r := mkRes 1500 4096 (Some {[1%positive := 3; 6%positive := 4194304000; 7%positive := 2500]}) in
   rt_domain r = true /\
   convert r !! 7%positive = Some 2500 /\ convert r !! 1%positive = Some 3000 /\
-  new_resource (convert r) = (r, 3).
+  bool_decide (new_resource (convert r) = (r, 3)) = true.
 Proof. vm_compute. repeat split; reflexivity. Qed.
 
 Example C16_conv_nonvacuous :
@@ -485,3 +510,18 @@ Example C16_conv_nonvacuous :
   float_to_quantity 16 true (16 * 4007 + 9) = 4007 /\ quantity_to_float 1 false 2500 = 3 /\
   float_to_quantity 1 true (quantity_to_float 1 true 4007) = 4007.
 Proof. exact conv_nonvacuous. Qed.
+
+(* above 2^53: 2^63-1024 milli-cpu, 1 Ei of memory, 2^53+2 pods, 3*2^60 milli-bytes of ephemeral-storage lie
+   in rt_domain and come back unchanged; 2^53+1 is not a float64 *)
+Example C16_roundtrip_large_nonvacuous :
+  rt_domain large_res = true /\
+  bool_decide (new_resource (convert large_res) = (large_res, 2 ^ 53 + 2)) = true /\
+  amount_ok (2 ^ 53 + 1) = false /\ f64 (2 ^ 53 + 1) = 2 ^ 53 /\ f64 (2 ^ 53 + 3) = 2 ^ 53 + 4.
+Proof. exact roundtrip_large_nonvacuous. Qed.
+
+(* the MaxFloat64 sentinel is outside the domain: the unchanged code (amd64) turns it into -2^63 *)
+Example C16_convert_sentinel :
+  let inf := (2 ^ 53 - 1) * 2 ^ 971 in
+  convert (mkRes inf inf None) !! cpu_name = Some min64 /\ amount_ok inf = false /\
+  fst (new_resource (convert (mkRes inf inf None))) = mkRes min64 min64 None.
+Proof. exact convert_sentinel. Qed.
